@@ -61,6 +61,9 @@ type Plan struct {
 	DropIDs     []int `json:"drop"`
 	TransformMs int   `json:"transformms"`
 	ErrPattern  []int `json:"errpattern"`
+	// ErrDeadline: the transient transform errors wrap context.DeadlineExceeded (a bounded sub-call of the transform
+	// gave up) instead of being plain errors; the controller's own context is alive.
+	ErrDeadline bool `json:"errdeadline,omitempty"`
 	StoreFaults []int `json:"storefaults"`
 	Script      []GOp `json:"script"`
 	// ReactOut lists the ids whose output has a reactive third party: the moment it sees the output turn
@@ -141,6 +144,7 @@ func Gen(ctrls []string) func(t *rapid.T) Plan {
 		}
 
 		p.ErrPattern = rapid.SliceOfNDistinct(rapid.IntRange(0, 8), 0, 3, rapid.ID[int]).Draw(t, "errpattern")
+		p.ErrDeadline = len(p.ErrPattern) > 0 && rapid.IntRange(0, 2).Draw(t, "errdeadline") == 0
 		p.StoreFaults = rapid.SliceOfNDistinct(rapid.IntRange(0, 20), 0, 3, rapid.ID[int]).Draw(t, "storefaults")
 
 		ks := []string{"create", "create", "update", "update", "teardown", "teardown", "destroy", "destroy", "in-addfin", "in-remfin", "out-addfin", "out-addfin", "out-remfin"}
@@ -415,6 +419,10 @@ func runBubble(p Plan) *Result {
 		}
 
 		if errAt[n] {
+			if p.ErrDeadline {
+				return fmt.Errorf("transient transform error #%d: sub-call gave up: %w", n, context.DeadlineExceeded)
+			}
+
 			return fmt.Errorf("transient transform error #%d", n)
 		}
 
